@@ -23,8 +23,10 @@ ASSUMPTIONS = ['dense (ndarray) result is the reference for the other '
 
 def shards(tier):
     if tier == 'quick':
-        return [dict(kind='build', n=640, parts=16, timeout=900)]
-    return [dict(kind='build', n=16000, parts=16, timeout=3400)]
+        return [dict(kind='build', n=640, parts=16, timeout=900),
+                dict(kind='large', n=4, parts=4, timeout=900, start=900000)]
+    return [dict(kind='build', n=16000, parts=16, timeout=3400),
+            dict(kind='large', n=64, parts=8, timeout=3400, start=900000)]
 
 
 def setup(ctx):
@@ -100,8 +102,58 @@ def identities(ctx, bname, Cp, Cout, T, pi, eqflag, tag, eps=1e-12):
     return ok
 
 
+def run_large(ctx, rng, idx):
+    """>= 1000 states: sparse input takes the sparse (ARPACK) eigen-solver
+    for the populations, dense input LAPACK; a slowly mixing chain."""
+    from vf.monitor import Frozen
+    C = mc.large_metastable_counts(rng)
+    n = C.shape[0]
+    bname = ['normalize', 'normalize', 'transpose'][int(rng.integers(0, 3))]
+    fn = getattr(builders, bname)
+    Cp = C.toarray().astype(float)
+    ctx.describe({'builder': bname, 'n': n, 'kind': 'large-metastable',
+                  'nnz': int(C.nnz)})
+    res = {}
+    for cname in ['ndarray', 'csr', ['csc', 'coo', 'lil'][
+            int(rng.integers(0, 3))]]:
+        Cin = mc.to_container(Cp.astype(np.int64), cname)
+        fz = Frozen(Cin)
+        try:
+            with warnings.catch_warnings():
+                warnings.simplefilter('ignore')
+                Cout, T, pi = fn(Cin, calculate_eq_probs=True)
+        except Exception as e:  # noqa
+            ctx.violation('builder.%s.raised[%s]' % (
+                bname, 'sparse' if cname != 'ndarray' else 'dense'),
+                '%s input, %d states: %s: %s' % (
+                    cname, n, type(e).__name__, str(e)[:300]))
+            continue
+        if fz.changed():
+            ctx.violation('builder.%s.mutates-input' % bname, cname)
+        if type(T) is not type(Cin):
+            ctx.violation('builder.%s.container' % bname,
+                          '%s in, T came back as %s' % (cname,
+                                                         type(T).__name__))
+        Td, Cd = mc.dense(T).astype(float), mc.dense(Cout).astype(float)
+        identities(ctx, bname, Cp, Cd, Td, pi, True, cname + '/large')
+        res[cname] = (Td, None if pi is None else np.asarray(pi))
+        ctx.count('containers_compared')
+        ctx.count('large_sparse_cases')
+    if 'ndarray' in res:
+        for cname, (Td, p) in res.items():
+            if cname != 'ndarray' and res['ndarray'][1] is not None and (
+                    p is None or np.abs(Td - res['ndarray'][0]).max() > 1e-12
+                    or np.abs(p - res['ndarray'][1]).max() > 1e-8):
+                ctx.violation('builder.%s.container-dependent' % bname,
+                              '%s result differs from dense result (%d '
+                              'states)' % (cname, n))
+    ctx.nontriv('large', Cp.tobytes(), bname)
+
+
 def run_case(ctx, kind, rng, idx):
     from vf.monitor import Frozen
+    if kind == 'large':
+        return run_large(ctx, rng, idx)
     bname = ['normalize', 'transpose', 'mle'][int(rng.integers(0, 3))]
     # the Prinz iteration converges very slowly on periodic chains (minutes
     # in pure Python): periodic structures only for the two direct builders
